@@ -1212,7 +1212,7 @@ PROPS["C13"] = dict(
     rule="gen.py with every item public (the property's fragment: public types for cross-module use), power-of-two alignments, arrays of <= 5 elements, 1..3 modules incl. nested ones, "
          "at pointer width 8; every accepted crate among the first 48 (quick) / 1500 (thorough) is assembled (module tree, extern types supplied, ABI strings normalised to \"C\") and "
          "type-checked by rustc; non-trivial = distinct accepted crate that went through rustc",
-    level_text="Proved in Coq (Properties/C13.v). On the emitted text, for every accepted collision-free build (EmitPaths.v, PathsClosed.v, PathsWhole.v): every path read back from the field types of every struct item (vftable structs included), every enum repr, the signature of every function of every inherent impl and every extern accessor of every written file is a Rust built-in, a declared extern type of the input, or the name of a struct/enum item emitted in the file of its parent module (C13_emitted_*_resolve; the final registry is closed under mentions: C13_registry_closed); the emitted size check transmutes between equal sizes (C13_emitted_size_check_holds). Per attempt (theorems named _partial): every path in a resolved type is a registry entry; the size-check transmute is between equal sizes; the alignment attribute is a power of two; "
+    level_text="Proved in Coq (Properties/C13.v). On the emitted text, for every accepted collision-free build (EmitPaths.v, PathsClosed.v, PathsWhole.v): every path read back from the field types of every struct item (vftable structs included), every enum repr, the signature of every function of every inherent impl and every extern accessor of every written file is a Rust built-in, a declared extern type of the input, or the name of a struct/enum item emitted in the file of its parent module (C13_emitted_*_resolve; the final registry is closed under mentions: C13_registry_closed); the emitted size check transmutes between equal sizes (C13_emitted_size_check_holds). Derives (EmitDefault.v): a struct derives Default iff declared defaultable and then every field, padding included, satisfies Rust's rule for Default -- primitive, array of at most 32, or an item whose own emitted definition derives Default (an enum with exactly one #[default] variant) -- exactly when array lengths are <= 32 and no field is a by-value void (C13_emitted_default_fields; the two exceptions are proved witnesses: outside the documented fragment / finding F9); Copy always comes with Clone; copyable/cloneable are not validated (F17, C13_copy_refuted). Per attempt (theorems named _partial): every path in a resolved type is a registry entry; the size-check transmute is between equal sizes; the alignment attribute is a power of two; "
                "Default is satisfiable for defaultable types. Whether rustc accepts the whole crate is NOT a theorem: it is decided on every run by rustc itself on the implementation's emitted files (the monitor/oracle). "
                "On the unchanged tree rustc rejects only inputs in listed known-finding classes (F9, F10, F12a-c, F13, F14, F17, F19), each recognised by error code plus a predicate on the input; any other rejection is a violation.",
     level_note="Trusted: Coq kernel for the partial theorems; rustc 1.95 (host, 64-bit) as the authority on type-checking; the crate assembly of tools/rustc_oracle.py (module tree, supplied extern types, ABI normalisation as the property allows). "
